@@ -791,7 +791,10 @@ func c11sibling(p *Program, r *Report, nb, nf *ssa.Function) {
 			for _, in := range b.Instrs {
 				if c, ok := in.(*ssa.Call); ok {
 					if cal := c.Call.StaticCallee(); cal != nil && p.InRepo(cal) {
-						if _, isMap := cal.Signature.Results().At(0).Type().Underlying().(*types.Map); cal.Signature.Results().Len() == 1 && isMap {
+						if cal.Signature.Results().Len() != 1 {
+							continue
+						}
+						if _, isMap := cal.Signature.Results().At(0).Type().Underlying().(*types.Map); isMap {
 							return cal, c
 						}
 					}
